@@ -72,6 +72,24 @@ class State:
         self.pc.append(b)
 
 
+_hints = None
+
+
+def backend_hints():
+    """contracts/BACKEND_HINTS.json: obligation name -> back end that discharged it on the last recorded
+    run of the unchanged tree (written by tools_hints.py).  Used to ORDER the solver attempts only."""
+    global _hints
+    if _hints is None:
+        import json
+        p = os.path.join(os.path.dirname(os.path.dirname(os.path.abspath(__file__))), 'contracts', 'BACKEND_HINTS.json')
+        try:
+            with open(p) as f:
+                _hints = json.load(f)
+        except (OSError, ValueError):
+            _hints = {}
+    return _hints
+
+
 class ObResult:
     def __init__(self, name, kind, fn, line, verdict, backend, ms, detail=None, model=None,
                  prop=(), text=''):
@@ -216,7 +234,14 @@ class Engine:
                                                      (self.cur_contract.prop if self.cur_contract else ())), text=text))
                 st.assume(goal)
                 return
-        verdict, backend, ms, info = solve.prove(st.pc, goal, timeout_ms=getattr(self, 'timeout_ms', None))
+        # k-th attempt of this obligation name in this task (one per path): the hint is per attempt
+        seqs = self.__dict__.setdefault('attempt_seq', {})
+        hk = '%s|%d' % (name, seqs.get(name, 0))
+        seqs[name] = seqs.get(name, 0) + 1
+        verdict, backend, ms, info = solve.prove(st.pc, goal, timeout_ms=getattr(self, 'timeout_ms', None),
+                                                 hint=backend_hints().get(hk))
+        if verdict == 'proved' and ms > 1500 and backend in ('cvc5', 'z3-4.8-cli', 'z3'):
+            self.__dict__.setdefault('hint_log', {})[hk] = backend
         if os.environ.get('PYVC_TRACE'):
             print('TRACE %-50s %-9s %7.0fms pc=%d last-line=%s' % (name, verdict, ms, len(st.pc), getattr(st, 'last_line', '?')), flush=True)
         model = None
